@@ -213,6 +213,26 @@ class Facts:
             self._limit_check = cands[0]
         return self._limit_check
 
+    def memory_check(self) -> Func:
+        """The method (of the dispatcher's class) that raises MemoryLimitError under a comparison with
+        self.memory_limit (the stack estimate; the host-depth budget raises the same class under its own bound)."""
+        if getattr(self, "_memory_check", None) is None:
+            df, _ = self.vm_dispatcher()
+            cands = []
+            for c in self.t.mro(df.cls):
+                for m in c.methods.values():
+                    for n in m.own_nodes():
+                        if isinstance(n, ast.Raise) and n.exc is not None and "MemoryLimitError" in norm(n.exc) and not any(isinstance(p, ast.ExceptHandler) for p in _parents(n)):
+                            if any(isinstance(p, ast.If) and "memory_limit" in norm(p.test) for p in _parents(n)):
+                                cands.append(m)
+            cands = list({id(c): c for c in cands}.values())
+            if len(cands) != 1:
+                # fall back to the time check's function (the classic combined check)
+                self._memory_check = self.limit_check()
+            else:
+                self._memory_check = cands[0]
+        return self._memory_check
+
     def script_reachable(self) -> Set[int]:
         """ids of functions reachable from running script code (dispatchers, run loops, natives)."""
         if getattr(self, "_sr", None) is None:
